@@ -4,3 +4,4 @@ CONSTANTS
   MaxLen = 4
   MaxLen2 = 3
 INVARIANT RoundTrip
+INVARIANT RunBlind
